@@ -20,15 +20,17 @@
 (* are never "oob" (NoOOB), for every monotone sequence, every  l  and     *)
 (* every query inside the bounds of the configuration.                     *)
 (*                                                                         *)
-(* Fixed = TRUE transcribes the repaired code (fix: commits of this        *)
-(* family); Fixed = FALSE the pinned one, for which TLC reports the NoOOB  *)
+(* Fixed / FixedPred = TRUE transcribe the repaired code (fix: commits of  *)
+(* this family); FALSE the pinned one, for which TLC reports the NoOOB     *)
 (* violations found on the real code: iter_from(n) selects the one of rank *)
-(* n, pred(q) beyond the last bucket selects a zero that does not exist.   *)
+(* n (Fixed), pred(q) beyond the last bucket selects a zero that does not  *)
+(* exist (FixedPred).                                                      *)
 (***************************************************************************)
 EXTENDS Naturals, Sequences, FiniteSets, EliasFano
 
-CONSTANTS W,        \* bits per word of the upper-bits array
-          Fixed     \* transcribe the repaired code
+CONSTANTS W,         \* bits per word of the upper-bits array
+          Fixed,     \* transcribe the repaired iter_from
+          FixedPred  \* transcribe the repaired pred_unchecked
 
 RECURSIVE P2(_)
 P2(k) == IF k = 0 THEN 1 ELSE 2 * P2(k - 1)
@@ -218,7 +220,7 @@ PredScan(E, qlow, strict, bitpos, rank, fuel) ==
              ELSE PredScan(E, qlow, strict, bitpos - 1, rank - 1, fuel - 1)
 
 PredUnchecked(E, q, strict) ==
-    LET beyond == Fixed /\ q > E.u
+    LET beyond == FixedPred /\ q > E.u
         z    == IF beyond THEN E.u \div E.p2 ELSE q \div E.p2
         \* beyond u every lower part of the last bucket qualifies
         qlow == IF beyond THEN E.p2 ELSE q % E.p2
